@@ -1,2 +1,10 @@
 import Proofs.C05
 #print axioms C05.parts_concat
+#print axioms C05.parts_eq_spec
+#print axioms C05.parts_shape
+#print axioms C05.base_eq_parts_fst
+#print axioms C05.name_key
+#print axioms C05.fullname_key
+#print axioms C05.subname_key
+#print axioms C05.gomaxprocs_key
+#print axioms C05.config_key
